@@ -220,7 +220,8 @@ def refactor_eval(srcs):
                     print('      %s: %s' % (p, l.strip()[:200]))
             dst = os.path.join(base, rid)
             os.makedirs(dst, exist_ok=True)
-            shutil.copy(os.path.join(src, 'patch.diff'), dst)
+            if os.path.abspath(src) != os.path.abspath(dst):
+                shutil.copy(os.path.join(src, 'patch.diff'), dst)
             meta = json.load(open(os.path.join(src, 'meta.json')))
             meta['suite_confirmed'] = True
             meta['checks_exit_codes'] = res
